@@ -364,6 +364,37 @@ def yaml_keys_wellformed(rep):
         rep.violation(f"yaml-key:{b[:80]}", f"{b}: the entry is ignored by _load_parameter_group_from_yaml, the previous entry stays in force from that day on", {"obligation": "Y", "what": b}, True)
 
 
+def timeline_holes(rep):
+    """G: between two consecutive dated implementations of a column name there is no day without an
+    implementation on which some rule in force still reads that column (and it is not a documented
+    input): on such a day "exactly the one implementation whose validity interval contains the date"
+    does not exist although the law in force needs it."""
+    from _gettsim.config import TYPES_INPUT_VARIABLES
+    from _gettsim.policy_environment import load_functions_for_date
+
+    table = decorator_table()
+    one = datetime.timedelta(days=1)
+    documented = set(TYPES_INPUT_VARIABLES) | venv.documented_inputs()
+    n = 0
+    bad = []
+    for name, impls in sorted(table.items()):
+        iv = sorted((s_, e_, q_) for q_, s_, e_, _ in impls)
+        for (s1, e1, q1), (s2, e2, q2) in zip(iv, iv[1:]):
+            n += 1
+            if e1 + one >= s2:
+                continue
+            day = e1 + one
+            with warnings.catch_warnings():
+                warnings.simplefilter("ignore")
+                fs = load_functions_for_date(day)
+            readers = sorted(fn for fn, f in fs.items() if name in inspect.signature(inspect.unwrap(f)).parameters)
+            if name not in fs and name not in documented and readers:
+                bad.append(f"{name}: {q1} ends {e1}, {q2} starts {s2}; from {day} to {s2 - one} nothing implements the column while {readers[:3]} read it")
+    rep.ob(f"G no hole in the timeline of a column that rules in force read ({n} consecutive pairs of dated implementations)", "refuted" if bad else "discharged", "exhaustive-run", 0, "decorators of src/_gettsim/**/*.py", "timeline", "; ".join(bad[:3]))
+    for b in bad[:5]:
+        rep.violation(f"timeline-hole:{b.split(':')[0]}", b, {"obligation": "G", "what": b}, True)
+
+
 def history_independence(rep, tier):
     """H: the environment is a function of the date alone -- after every mutable object reachable from
     previously returned environments (same day, next day, a year earlier) has been overwritten in
@@ -431,6 +462,7 @@ def run(tier="quick", seed=0, jobs=16):
     rep.trusted = ["yaml.CLoader", "copy.deepcopy", "CPython datetime", "z3 5.1.0", "E1 encoder"]
     small_pieces(rep)
     yaml_keys_wellformed(rep)
+    timeline_holes(rep)
     history_independence(rep, tier)
     last = venv.last_parameter_date()
     end = last.replace(year=last.year + 1)
